@@ -29,6 +29,7 @@ type e3Scenario struct {
 	PoolPoints    bool                   // pool operations are scheduling points (and GC choices) in this scenario
 	NoWGAddPoints bool                   // WaitGroup.Add/Done are not scheduling points in this scenario
 	MaxSteps      int
+	BoundCap      int // > 0: explore this scenario only up to this preemption bound (value sweeps whose outcome does not depend on the schedule)
 }
 
 type e3Thread struct {
@@ -252,7 +253,11 @@ func runScenarios(c *Ctx, scs []*e3Scenario, maxBound int, perScenario time.Dura
 		if !r.Deadline.IsZero() && dl.After(r.Deadline) {
 			dl = r.Deadline
 		}
-		st := exploreScenario(r, sc, maxBound, dl, maxExec)
+		bound := maxBound
+		if sc.BoundCap > 0 && sc.BoundCap < bound {
+			bound = sc.BoundCap
+		}
+		st := exploreScenario(r, sc, bound, dl, maxExec)
 		r.Eval(st.Executions)
 		r.AddTransitions(st.Points)
 		r.AddStates(int64(len(st.Outcomes)))
@@ -270,7 +275,7 @@ func runScenarios(c *Ctx, scs []*e3Scenario, maxBound int, perScenario time.Dura
 		if st.Truncated {
 			r.CapHit(fmt.Sprintf("scenario %s: execution/time cap hit while exploring preemption bound %d (bound %d completed)", sc.Name, st.BoundCompleted+1, st.BoundCompleted))
 		}
-		if st.BoundCompleted < minBound {
+		if st.BoundCompleted < minBound && sc.BoundCap == 0 {
 			minBound = st.BoundCompleted
 		}
 		if samples < 12 {
